@@ -66,34 +66,59 @@ def ident_ok(cell):
 
 
 @spec
-def groups_ok():
-    """Free identities of every group are within [0, count)."""
-    return forall(lambda g, i: implies(alive(g) and cls_is(g, 'IdentityGroup') and i in g.available,
-                                       0 <= i and i < g.count), 'IdentityGroup', 'Int')
+def groups_ok(cell):
+    """Free identities of every group in use are within [0, count)."""
+    return forall(lambda n, i: implies(n in cell.apps and cell.apps[n].identity_group_ref is not None and
+                                       i in cell.apps[n].identity_group_ref.available,
+                                       0 <= i and i < cell.apps[n].identity_group_ref.count), 'Name', 'Int')
 
 
 @spec
-def held_ok(cell):
-    """Within a group no two instances hold the same identity, and a held identity is not free."""
-    return (forall(lambda n, m: implies(n in cell.apps and m in cell.apps and n != m and
-                                        cell.apps[n].identity_group_ref is not None and
-                                        cell.apps[n].identity_group_ref == cell.apps[m].identity_group_ref and
-                                        cell.apps[n].identity is not None and cell.apps[m].identity is not None,
-                                        cell.apps[n].identity != cell.apps[m].identity), 'Name', 'Name') and
-            forall(lambda n: implies(n in cell.apps and cell.apps[n].identity_group_ref is not None and
-                                     cell.apps[n].identity is not None,
-                                     cell.apps[n].identity not in cell.apps[n].identity_group_ref.available), 'Name'))
+def held_distinct(cell):
+    """Within a group no two instances hold the same identity."""
+    return forall(lambda n, m: implies(n in cell.apps and m in cell.apps and n != m and
+                                       cell.apps[n].identity_group_ref is not None and
+                                       cell.apps[n].identity_group_ref == cell.apps[m].identity_group_ref and
+                                       cell.apps[n].identity is not None and cell.apps[m].identity is not None,
+                                       cell.apps[n].identity != cell.apps[m].identity), 'Name', 'Name')
+
+
+@spec
+def held_not_free(cell):
+    """A held identity is not on the group's free list."""
+    return forall(lambda n: implies(n in cell.apps and cell.apps[n].identity_group_ref is not None and
+                                    cell.apps[n].identity is not None,
+                                    cell.apps[n].identity not in cell.apps[n].identity_group_ref.available), 'Name')
+
+
+@spec
+def ident_nonneg(cell):
+    return forall(lambda n: implies(n in cell.apps and cell.apps[n].identity is not None,
+                                    0 <= cell.apps[n].identity), 'Name')
+
+
+@spec
+def all_unplaced_free(cell):
+    """C05 clause 4 over the whole cell."""
+    return forall(lambda n: implies(n in cell.apps, unplaced_free(cell.apps[n])), 'Name')
+
+
+@spec
+def blacklist_ok(cell):
+    """A blacklisted instance is not placed."""
+    return forall(lambda n: implies(n in cell.apps and cell.apps[n].blacklisted, cell.apps[n].server is None), 'Name')
 
 
 @spec
 def ident_inv(cell):
-    return groups_ok() and held_ok(cell)
+    return groups_ok(cell) and held_distinct(cell) and held_not_free(cell)
 
 
 @spec
 def in_range_ok(cell):
     return forall(lambda n: implies(n in cell.apps and cell.apps[n].identity is not None and
                                     cell.apps[n].identity_group_ref is not None,
+                                    0 <= cell.apps[n].identity and
                                     cell.apps[n].identity < cell.apps[n].identity_group_ref.count), 'Name')
 
 
@@ -290,25 +315,30 @@ contract(M + ':Cell._find_placements',
                 'reversed_queue': 'List[Application]'},
          requires=['in_cell(self)', 'queue_ok(queue, self)', 'cell_inv(self, servers)', 'cycle_ctx(servers)',
                    'no_renew(self)',
-                   ('C05', 'ident_inv(self)'), ('C05', 'in_range_ok(self)'),
-                   ('C05', 'forall(lambda j: implies(0 <= j and j < len(queue) and queue[j].blacklisted, '
-                           '       queue[j].server is None), "Int")')],
+                   ('C05', 'groups_ok(self)'), ('C05', 'held_distinct(self)'), ('C05', 'held_not_free(self)'), ('C05', 'in_range_ok(self)'),
+                   ('C05,C08', 'blacklist_ok(self)'),
+                   # clause 4 holds when the walk starts (left by the previous cycle and the pre-passes)
+                   ('C05', 'all_unplaced_free(self)'), ('C05', 'ident_nonneg(self)')],
          ensures=['apps_ok(self)', 'srv_ok(servers)', 'link_ok(self, servers)', 'back_ok(self, servers)',
                   'ident_ok(self)', 'all_strategies_ok()', 'strat_nodes_ok()', 'no_renew(self)',
-                  ('C05', 'ident_inv(self)'), ('C05', 'in_range_ok(self)'),
+                  ('C05', 'groups_ok(self)'), ('C05', 'held_distinct(self)'), ('C05', 'held_not_free(self)'), ('C05', 'in_range_ok(self)'),
                   # clause 4: at the end of the cycle an instance that is not placed holds no identity
-                  ('C05', 'forall(lambda j: implies(0 <= j and j < len(queue), unplaced_free(queue[j])), "Int")')],
-         modifies=FIND_MODIFIES, props=['C01', 'C03', 'C05'])
+                  ('C05', 'all_unplaced_free(self)'), ('C05', 'ident_nonneg(self)'),
+                  ('C05,C08', 'blacklist_ok(self)')],
+         modifies=FIND_MODIFIES, props=['C01', 'C03', 'C05', 'C08'])
 invariant(M + ':Cell._find_placements', 0, 'for app in queue',
           ['srv_ok(servers)', 'link_ok(self, servers)', 'back_ok(self, servers)', 'ident_ok(self)',
            'all_strategies_ok()', 'strat_nodes_ok()',
            'evicted_ok(evicted, queue, servers, _i)', 'no_renew(self)',
            'implies(_i < len(queue), not queue[_i].renew)',
            'alive(placement_tracker)',
-           ('C05', 'ident_inv(self)'), ('C05', 'in_range_ok(self)'),
-           ('C05', 'forall(lambda j: implies(0 <= j and j < len(queue) and queue[j].blacklisted, '
-                   '       queue[j].server is None), "Int")'),
-           ('C05', 'forall(lambda j: implies(0 <= j and j < _i, unplaced_free(queue[j])), "Int")')])
+           ('C05', 'groups_ok(self)'), ('C05', 'held_distinct(self)'), ('C05', 'held_not_free(self)'), ('C05', 'in_range_ok(self)'),
+           ('C05,C08', 'blacklist_ok(self)'),
+           # only this cycle's victims whose turn is still to come are unplaced with an identity
+           ('C05', 'forall(lambda n: implies(n in self.apps and not unplaced_free(self.apps[n]), '
+                   '       self.apps[n] in evicted and _i <= qidx(queue, self.apps[n])), "Name")'),
+           ('C05', 'ident_nonneg(self)'),
+           ('C05', 'forall(lambda a: implies(a in evicted, not a.blacklisted), "Application")')])
 invariant(M + ':Cell._find_placements', 1, 'for evicted_app in reversed_queue',
           ['srv_ok(servers)', 'link_ok(self, servers)', 'back_ok(self, servers)', 'ident_ok(self)',
            'all_strategies_ok()', 'strat_nodes_ok()',
@@ -316,10 +346,13 @@ invariant(M + ':Cell._find_placements', 1, 'for evicted_app in reversed_queue',
            '_i <= len(queue) - 1 - qidx(queue, app)',
            'evicted_ok(evicted, queue, servers, qidx(queue, app) + 1)',
            'no_renew(self)',
-           ('C05', 'ident_inv(self)'), ('C05', 'in_range_ok(self)'),
-           ('C05', 'forall(lambda j: implies(0 <= j and j < len(queue) and queue[j].blacklisted, '
-                   '       queue[j].server is None), "Int")'),
-           ('C05', 'forall(lambda j: implies(0 <= j and j < qidx(queue, app), unplaced_free(queue[j])), "Int")')])
+           ('C05', 'groups_ok(self)'), ('C05', 'held_distinct(self)'), ('C05', 'held_not_free(self)'), ('C05', 'in_range_ok(self)'),
+           ('C05,C08', 'blacklist_ok(self)'),
+           ('C05', 'forall(lambda n: implies(n in self.apps and not unplaced_free(self.apps[n]) and '
+                   '       self.apps[n] != app, self.apps[n] in evicted and '
+                   '       qidx(queue, app) < qidx(queue, self.apps[n])), "Name")'),
+           ('C05', 'ident_nonneg(self)'),
+           ('C05', 'forall(lambda a: implies(a in evicted, not a.blacklisted), "Application")')])
 
 
 # ------------------------------------------------------------------ pre-passes of a cycle
@@ -361,44 +394,52 @@ PREPASS_MODIFIES = [
 contract(M + ':Cell._fix_invalid_placements',
          types={'queue': 'List[Application]', 'servers': 'Dict[Name,Server]'},
          requires=['covers(queue, self)', 'apps_ok(self)', 'srv_ok(servers)', 'back_ok(self, servers)',
-                   'weak_link(self, servers)', 'ident_weak(self, servers)'],
+                   'weak_link(self, servers)', 'ident_weak(self, servers)',
+                   ('C05', 'groups_ok(self)'), ('C05', 'held_distinct(self)'), ('C05', 'held_not_free(self)'), ('C05', 'ident_nonneg(self)'), ('C05', 'all_unplaced_free(self)')],
          ensures=['apps_ok(self)', 'srv_ok(servers)', 'back_ok(self, servers)', 'link_ok(self, servers)',
-                  'ident_ok(self)'],
+                  'ident_ok(self)',
+                  ('C05', 'groups_ok(self)'), ('C05', 'held_distinct(self)'), ('C05', 'held_not_free(self)'), ('C05', 'ident_nonneg(self)'), ('C05', 'all_unplaced_free(self)')],
          modifies=[('Application.server', 'lambda a: True'), ('Application.evicted', 'lambda a: True'),
                    ('Application.identity', 'lambda a: True'), ('IdentityGroup.available', 'lambda g: True')],
          props=['C01', 'C05'])
 invariant(M + ':Cell._fix_invalid_placements', 0, 'for app in queue',
           ['srv_ok(servers)', 'back_ok(self, servers)', 'weak_link(self, servers)', 'ident_weak(self, servers)',
            # instances already visited satisfy the strong link
-           'forall(lambda j: implies(0 <= j and j < _i, placed_ok(queue[j], servers)), "Int")'])
+           'forall(lambda j: implies(0 <= j and j < _i, placed_ok(queue[j], servers)), "Int")',
+           ('C05', 'groups_ok(self)'), ('C05', 'held_distinct(self)'), ('C05', 'held_not_free(self)'), ('C05', 'ident_nonneg(self)'), ('C05', 'all_unplaced_free(self)')])
 
 contract(M + ':Cell._handle_blacklisted_apps',
          types={'queue': 'List[Application]', 'servers': 'Dict[Name,Server]'},
          requires=['covers(queue, self)', 'apps_ok(self)', 'srv_ok(servers)', 'back_ok(self, servers)',
-                   'link_ok(self, servers)', 'tree_ok(servers)', 'ident_ok(self)'],
+                   'link_ok(self, servers)', 'tree_ok(servers)', 'ident_ok(self)',
+                   ('C05', 'groups_ok(self)'), ('C05', 'held_distinct(self)'), ('C05', 'held_not_free(self)'), ('C05', 'ident_nonneg(self)'), ('C05', 'all_unplaced_free(self)')],
          ensures=['apps_ok(self)', 'srv_ok(servers)', 'back_ok(self, servers)', 'link_ok(self, servers)', 'ident_ok(self)',
-                  ('C08', 'forall(lambda n: implies(n in self.apps and self.apps[n].blacklisted, '
-                          '       self.apps[n].server is None), "Name")')],
+                  ('C05,C08', 'blacklist_ok(self)'),
+                  ('C05', 'groups_ok(self)'), ('C05', 'held_distinct(self)'), ('C05', 'held_not_free(self)'), ('C05', 'ident_nonneg(self)'), ('C05', 'all_unplaced_free(self)')],
          modifies=PREPASS_MODIFIES, props=['C01', 'C05', 'C08'])
 invariant(M + ':Cell._handle_blacklisted_apps', 0, 'for app in queue',
           ['srv_ok(servers)', 'back_ok(self, servers)', 'link_ok(self, servers)', 'ident_ok(self)',
-           ('C08', 'forall(lambda j: implies(0 <= j and j < _i and queue[j].blacklisted, '
-                   '       queue[j].server is None), "Int")')])
+           ('C05,C08', 'forall(lambda j: implies(0 <= j and j < _i and queue[j].blacklisted, '
+                   '       queue[j].server is None), "Int")'),
+           ('C05', 'groups_ok(self)'), ('C05', 'held_distinct(self)'), ('C05', 'held_not_free(self)'), ('C05', 'ident_nonneg(self)'), ('C05', 'all_unplaced_free(self)')])
 
 contract(M + ':Cell._fix_invalid_identities',
          types={'queue': 'List[Application]', 'servers': 'Dict[Name,Server]'},
          requires=['covers(queue, self)', 'apps_ok(self)', 'srv_ok(servers)', 'back_ok(self, servers)',
-                   'link_ok(self, servers)', 'tree_ok(servers)', 'ident_ok(self)'],
-         ensures=['apps_ok(self)', 'srv_ok(servers)', 'back_ok(self, servers)', 'link_ok(self, servers)', 'ident_ok(self)',
+                   'link_ok(self, servers)', 'tree_ok(servers)', 'ident_ok(self)', ('C05,C08', 'blacklist_ok(self)'),
+                   ('C05', 'groups_ok(self)'), ('C05', 'held_distinct(self)'), ('C05', 'held_not_free(self)'), ('C05', 'ident_nonneg(self)'), ('C05', 'all_unplaced_free(self)')],
+         ensures=['apps_ok(self)', 'srv_ok(servers)', 'back_ok(self, servers)', 'link_ok(self, servers)', 'ident_ok(self)', ('C05,C08', 'blacklist_ok(self)'),
                   ('C05', 'forall(lambda n: implies(n in self.apps and self.apps[n].identity is not None and '
                           '  self.apps[n].identity_group_ref is not None, '
-                          '  self.apps[n].identity < self.apps[n].identity_group_ref.count), "Name")')],
+                          '  self.apps[n].identity < self.apps[n].identity_group_ref.count), "Name")'),
+                  ('C05', 'groups_ok(self)'), ('C05', 'held_distinct(self)'), ('C05', 'held_not_free(self)'), ('C05', 'ident_nonneg(self)'), ('C05', 'all_unplaced_free(self)')],
          modifies=PREPASS_MODIFIES, props=['C01', 'C05'])
 invariant(M + ':Cell._fix_invalid_identities', 0, 'for app in queue',
-          ['srv_ok(servers)', 'back_ok(self, servers)', 'link_ok(self, servers)', 'ident_ok(self)',
+          ['srv_ok(servers)', 'back_ok(self, servers)', 'link_ok(self, servers)', 'ident_ok(self)', ('C05,C08', 'blacklist_ok(self)'),
            ('C05', 'forall(lambda j: implies(0 <= j and j < _i and queue[j].identity is not None and '
                    '  queue[j].identity_group_ref is not None, '
-                   '  queue[j].identity < queue[j].identity_group_ref.count), "Int")')])
+                   '  queue[j].identity < queue[j].identity_group_ref.count), "Int")'),
+           ('C05', 'groups_ok(self)'), ('C05', 'held_distinct(self)'), ('C05', 'held_not_free(self)'), ('C05', 'ident_nonneg(self)'), ('C05', 'all_unplaced_free(self)')])
 
 
 @spec
@@ -412,22 +453,27 @@ def moved_ok(tbm, server, lo):
 contract(M + ':Cell._handle_inactive_servers',
          types={'servers': 'Dict[Name,Server]', 'to_be_moved': 'List[Application]'},
          requires=['apps_ok(self)', 'srv_ok(servers)', 'back_ok(self, servers)', 'link_ok(self, servers)',
-                   'tree_ok(servers)', 'ident_ok(self)'],
+                   'tree_ok(servers)', 'ident_ok(self)',
+                   ('C05', 'groups_ok(self)'), ('C05', 'held_distinct(self)'), ('C05', 'held_not_free(self)'), ('C05', 'ident_nonneg(self)'), ('C05', 'all_unplaced_free(self)')],
          ensures=['apps_ok(self)', 'srv_ok(servers)', 'back_ok(self, servers)', 'link_ok(self, servers)',
-                  'ident_ok(self)'],
+                  'ident_ok(self)',
+                  ('C05', 'groups_ok(self)'), ('C05', 'held_distinct(self)'), ('C05', 'held_not_free(self)'), ('C05', 'ident_nonneg(self)'), ('C05', 'all_unplaced_free(self)')],
          modifies=PREPASS_MODIFIES + ['self.next_event_at'], props=['C01', 'C05', 'C08'])
 invariant(M + ':Cell._handle_inactive_servers', 0, 'for server in servers.values()',
-          ['srv_ok(servers)', 'back_ok(self, servers)', 'link_ok(self, servers)', 'ident_ok(self)'])
+          ['srv_ok(servers)', 'back_ok(self, servers)', 'link_ok(self, servers)', 'ident_ok(self)',
+           ('C05', 'groups_ok(self)'), ('C05', 'held_distinct(self)'), ('C05', 'held_not_free(self)'), ('C05', 'ident_nonneg(self)'), ('C05', 'all_unplaced_free(self)')])
 invariant(M + ':Cell._handle_inactive_servers', 1, 'for (name, app) in server.apps.items()',
           ['srv_ok(servers)', 'back_ok(self, servers)', 'link_ok(self, servers)', 'ident_ok(self)',
            'server.apps == at_loop_entry(server.apps)',
            'forall(lambda p: implies(0 <= p and p < len(to_be_moved), to_be_moved[p].name in server.apps and '
            '       server.apps[to_be_moved[p].name] == to_be_moved[p] and _pos(to_be_moved[p].name) < _i), "Int")',
            'forall(lambda p, q: implies(0 <= p and p < q and q < len(to_be_moved), '
-           '       _pos(to_be_moved[p].name) < _pos(to_be_moved[q].name)), "Int", "Int")'])
+           '       _pos(to_be_moved[p].name) < _pos(to_be_moved[q].name)), "Int", "Int")',
+           ('C05', 'groups_ok(self)'), ('C05', 'held_distinct(self)'), ('C05', 'held_not_free(self)'), ('C05', 'ident_nonneg(self)'), ('C05', 'all_unplaced_free(self)')])
 invariant(M + ':Cell._handle_inactive_servers', 2, 'for app in to_be_moved',
           ['srv_ok(servers)', 'back_ok(self, servers)', 'link_ok(self, servers)', 'ident_ok(self)',
-           'moved_ok(to_be_moved, server, _i)'])
+           'moved_ok(to_be_moved, server, _i)',
+           ('C05', 'groups_ok(self)'), ('C05', 'held_distinct(self)'), ('C05', 'held_not_free(self)'), ('C05', 'ident_nonneg(self)'), ('C05', 'all_unplaced_free(self)')])
 
 
 # ------------------------------------------------------------------ schedule_alloc / schedule
@@ -477,8 +523,11 @@ contract(M + ':Cell.schedule_alloc',
          types={'allocation': 'Allocation', 'servers': 'Dict[Name,Server]',
                 'util_queue': 'List[Tuple[Int,Ext,Ext,Int,Int,Application]]', 'queue': 'List[Application]'},
          requires=['alloc_in_cell(allocation, self)', 'cycle_pre(self, servers)', 'link_ok(self, servers)',
-                   'ident_ok(self)'],
-         ensures=['cycle_pre(self, servers)', 'link_ok(self, servers)', 'ident_ok(self)'],
+                   'ident_ok(self)', ('C05', 'groups_ok(self)'), ('C05', 'held_distinct(self)'), ('C05', 'held_not_free(self)'), ('C05', 'ident_nonneg(self)'), ('C05', 'all_unplaced_free(self)'), ('C05', 'in_range_ok(self)'),
+                   ('C05,C08', 'blacklist_ok(self)')],
+         ensures=['cycle_pre(self, servers)', 'link_ok(self, servers)', 'ident_ok(self)', ('C05', 'groups_ok(self)'), ('C05', 'held_distinct(self)'), ('C05', 'held_not_free(self)'), ('C05', 'ident_nonneg(self)'), ('C05', 'all_unplaced_free(self)'),
+                  ('C05', 'in_range_ok(self)'),
+                  ('C05,C08', 'blacklist_ok(self)')],
          modifies=FIND_MODIFIES + [('Application.final_rank', 'lambda a: True'),
                                    ('Application.final_util', 'lambda a: True')],
          props=['C01', 'C03', 'C05'])
@@ -490,14 +539,121 @@ contract(M + ':Cell.schedule',
          requires=['cls_is(self, "Cell")', 'cycle_pre(self, MEMBERS)', 'weak_link(self, MEMBERS)',
                    'ident_weak(self, MEMBERS)',
                    'forall(lambda l: implies(l in self.partitions, '
-                   '       alloc_in_cell(self.partitions[l].allocation, self)), "Opt[Name]")'],
+                   '       alloc_in_cell(self.partitions[l].allocation, self)), "Opt[Name]")',
+                   ('C05', 'groups_ok(self)'), ('C05', 'held_distinct(self)'), ('C05', 'held_not_free(self)'), ('C05', 'ident_nonneg(self)'), ('C05', 'all_unplaced_free(self)')],
          ensures=[('C01', 'srv_ok(MEMBERS)'), ('C01', 'link_ok(self, MEMBERS)'), ('C01', 'back_ok(self, MEMBERS)'),
-                  ('C01', 'apps_ok(self)'), ('C05', 'ident_ok(self)')],
+                  ('C01', 'apps_ok(self)'), ('C05', 'ident_ok(self)'),
+                  # C05: unique, in range, held by every placed instance of a group, and only by placed ones
+                  ('C05', 'groups_ok(self)'), ('C05', 'held_distinct(self)'), ('C05', 'held_not_free(self)'), ('C05', 'ident_nonneg(self)'), ('C05', 'all_unplaced_free(self)'), ('C05', 'in_range_ok(self)')],
          modifies=FIND_MODIFIES + [('Application.final_rank', 'lambda a: True'),
                                    ('Application.final_util', 'lambda a: True'),
                                    ('Allocation.label', 'lambda a: True'), 'self.next_event_at'],
          props=['C01', 'C03', 'C05', 'C08'])
 invariant(M + ':Cell.schedule', 0, 'for (label, partition) in six.iteritems(self.partitions)', [])
 invariant(M + ':Cell.schedule', 1, 'for (label, partition) in six.iteritems(self.partitions)',
-          ['cycle_pre(self, servers)', 'link_ok(self, servers)', 'ident_ok(self)', 'servers == MEMBERS'])
+          ['cycle_pre(self, servers)', 'link_ok(self, servers)', 'ident_ok(self)', 'servers == MEMBERS',
+           ('C05', 'groups_ok(self)'), ('C05', 'held_distinct(self)'), ('C05', 'held_not_free(self)'), ('C05', 'ident_nonneg(self)'), ('C05', 'all_unplaced_free(self)'), ('C05', 'in_range_ok(self)'),
+           ('C05,C08', 'blacklist_ok(self)')])
 invariant(M + ':Cell.schedule', 2, 'for (appname, s_before, exp_before, s_after, exp_after) in placement', [])
+
+
+# ------------------------------------------------------------------ identity events between cycles (C05)
+@spec
+def refs_ok(cell):
+    """An instance's group reference is the cell's group of that name."""
+    return (forall(lambda n: implies(n in cell.apps and cell.apps[n].identity_group_ref is not None,
+                                     cell.apps[n].identity_group is not None and
+                                     cell.apps[n].identity_group in cell.identity_groups and
+                                     cell.identity_groups[cell.apps[n].identity_group] ==
+                                     cell.apps[n].identity_group_ref), 'Name') and
+            # add_app resolves the reference whenever the instance names a group
+            forall(lambda n: implies(n in cell.apps and cell.apps[n].identity_group is not None,
+                                     cell.apps[n].identity_group_ref is not None), 'Name'))
+
+
+@spec
+def ident_between(cell):
+    """What the identity clauses need to hold between cycles (events preserve it, cycles rely on it)."""
+    return (groups_ok(cell) and held_distinct(cell) and held_not_free(cell) and ident_nonneg(cell) and
+            all_unplaced_free(cell) and refs_ok(cell) and
+            forall(lambda g: implies(g in cell.identity_groups, cell.identity_groups[g].count >= 0), 'Name') and
+            forall(lambda g, i: implies(g in cell.identity_groups and i in cell.identity_groups[g].available,
+                                        0 <= i and i < cell.identity_groups[g].count), 'Name', 'Int'))
+
+
+contract(M + ':IdentityGroup.__init__', types={'count': 'Int'},
+         requires=['count >= 0'],
+         ensures=['self.count == count',
+                  'forall(lambda i: (i in self.available) == (0 <= i and i < count), "Int")'],
+         modifies=['self.count', 'self.available'], props=['C05'])
+
+contract(M + ':Cell.configure_identity_group', types={'name': 'Name', 'count': 'Int'},
+         requires=['count >= 0', 'ident_between(self)'],
+         ensures=[('C05', 'groups_ok(self)'), ('C05', 'held_distinct(self)'),
+                  # a grown group must not hand out an identity that is still held
+                  ('C05', 'held_not_free(self)'),
+                  ('C05', 'ident_nonneg(self)'), ('C05', 'all_unplaced_free(self)'), ('C05', 'refs_ok(self)'),
+                  'name in self.identity_groups and self.identity_groups[name].count == count'],
+         modifies=['self.identity_groups', 'alloc', ('IdentityGroup.count', 'lambda g: True'),
+                   ('IdentityGroup.available', 'lambda g: True')],
+         props=['C05'])
+invariant(M + ':Cell.configure_identity_group', 0, 'for app in six.itervalues(self.apps)',
+          ['group.count == count', 'name in self.identity_groups and self.identity_groups[name] == group',
+           'self.identity_groups == at_loop_entry(self.identity_groups)',
+           # only `group` loses free identities, and only such ones
+           'forall(lambda i: implies(i in group.available, i in at_loop_entry(group.available)), "Int")',
+           'forall(lambda n: implies(n in self.apps and self.apps[n].identity_group_ref is not None and '
+           '       self.apps[n].identity_group_ref != group, '
+           '       self.apps[n].identity_group_ref.available == '
+           '       at_loop_entry(self.apps[n].identity_group_ref.available)), "Name")',
+           'forall(lambda n: implies(n in self.apps and self.apps[n].identity_group_ref == group and '
+           '       self.apps[n].identity is not None and _pos(n) < _i, '
+           '       self.apps[n].identity not in group.available), "Name")'])
+
+contract(M + ':Cell.remove_identity_group', types={'name': 'Name', 'ident_group': 'Opt[IdentityGroup]'},
+         requires=['ident_between(self)'],
+         ensures=[('C05', 'groups_ok(self)'), ('C05', 'held_distinct(self)'), ('C05', 'held_not_free(self)'),
+                  ('C05', 'ident_nonneg(self)'), ('C05', 'all_unplaced_free(self)'), ('C05', 'refs_ok(self)')],
+         modifies=['self.identity_groups', ('IdentityGroup.count', 'lambda g: True'),
+                   ('IdentityGroup.available', 'lambda g: True')],
+         props=['C05'])
+invariant(M + ':Cell.remove_identity_group', 0, 'for app in six.itervalues(self.apps)',
+          ['not in_use',
+           'forall(lambda n: implies(n in self.apps and _pos(n) < _i, '
+           '       self.apps[n].identity_group_ref != ident_group), "Name")',
+           # nothing was adjusted yet
+           'forall(lambda g: g.available == at_loop_entry(g.available) and g.count == at_loop_entry(g.count), '
+           '       "IdentityGroup")'])
+
+
+# ------------------------------------------------------------------ instances added / removed between cycles
+@spec
+def between_cycles(cell, servers):
+    """What a cycle may assume on entry (C01 part); every event on the model has to preserve it."""
+    return apps_ok(cell) and srv_ok(servers) and back_ok(cell, servers) and weak_link(cell, servers)
+
+
+contract(M + ':Cell.add_app', types={'allocation': 'Allocation', 'app': 'Application'},
+         requires=['between_cycles(self, MEMBERS)', 'ident_between(self)', 'ident_weak(self, MEMBERS)',
+                   # the instance is new to the cell, or it is the cell's instance of that name being re-assigned
+                   '(app.name in self.apps and self.apps[app.name] == app) or '
+                   '(app.name not in self.apps and app.server is None and app.identity is None and '
+                   ' app.identity_group_ref is None and '
+                   ' forall(lambda n: implies(n in MEMBERS, app.name not in MEMBERS[n].apps), "Name"))'],
+         ensures=[('C01', 'between_cycles(self, MEMBERS)'), 'app.name in self.apps and self.apps[app.name] == app',
+                  ('C05', 'groups_ok(self)'), ('C05', 'held_distinct(self)'), ('C05', 'held_not_free(self)'),
+                  ('C05', 'ident_nonneg(self)'), ('C05', 'all_unplaced_free(self)'), ('C05', 'refs_ok(self)'),
+                  ('C05', 'ident_weak(self, MEMBERS)')],
+         modifies=['self.apps', 'self.identity_groups', 'alloc', 'app.allocation', 'app.identity_group_ref',
+                   ('Allocation.apps', 'lambda a: True'), ('Application.allocation', 'lambda a: True')],
+         props=['C01', 'C05'])
+
+contract(M + ':Cell.remove_app', types={'appname': 'Name', 'servers': 'Dict[Name,Server]'},
+         requires=['cls_is(self, "Cell")', 'between_cycles(self, MEMBERS)', 'ident_between(self)',
+                   'ident_weak(self, MEMBERS)', 'tree_ok(MEMBERS)'],
+         ensures=[('C01', 'between_cycles(self, MEMBERS)'), 'appname not in self.apps',
+                  ('C05', 'groups_ok(self)'), ('C05', 'held_distinct(self)'), ('C05', 'held_not_free(self)'),
+                  ('C05', 'ident_nonneg(self)'), ('C05', 'all_unplaced_free(self)'), ('C05', 'refs_ok(self)'),
+                  ('C05', 'ident_weak(self, MEMBERS)')],
+         modifies=['self.apps', ('Allocation.apps', 'lambda a: True'), ('Application.allocation', 'lambda a: True')]
+         + PREPASS_MODIFIES, props=['C01', 'C05'])
